@@ -75,6 +75,10 @@ def readCall (tok : String) : Option Call :=
       match args with
       | [ip, i] => do let p ← readIp ip; let inst ← readInst i; pure (.insertRaw p inst)
       | _ => none
+    else if name == "select_function_by_name" then
+      match args with
+      | [nm] => (unhex nm).map Call.selectByName
+      | _ => none
     else if name == "insert_types_global_values" then
       match args with
       | [ip, i] => do let p ← readIp ip; let inst ← readInst i; pure (.insertTGV p inst)
